@@ -15,6 +15,13 @@
 //! * `FUTEX_WAKE` (from any thread of the process) first releases simulated waiters;
 //! * a sleep advances the simulated clock instead of the wall clock and is a scheduling point.
 //!
+//! `pthread_create` / `pthread_join` are interposed too: a thread that a simulated thread creates (the
+//! tree under test starting a `std::thread` of its own) is *adopted* - it gets a slot in the
+//! scheduler, waits for the token before its start routine runs, yields at the same points as a
+//! worker and gives the token away for good when the routine returns; a join waits in the
+//! simulator. Without this such a thread would run in real parallel with the one token holder and
+//! the run would no longer be a function of the decisions.
+//!
 //! x86-64 Linux only (the raw `syscall` instruction; on this ABI a variadic call passes integer
 //! arguments exactly like a fixed-arity one, so `syscall` can be defined with seven parameters).
 
@@ -198,4 +205,109 @@ pub unsafe extern "C" fn clock_nanosleep(clk: libc::clockid_t, flags: c_int, req
     } else {
         0
     }
+}
+
+// ---------------------------------------------------------------------------
+// pthread_create / pthread_join
+// ---------------------------------------------------------------------------
+
+type StartRoutine = extern "C" fn(*mut libc::c_void) -> *mut libc::c_void;
+type CreateFn = unsafe extern "C" fn(*mut libc::pthread_t, *const libc::pthread_attr_t, StartRoutine, *mut libc::c_void) -> c_int;
+type JoinFn = unsafe extern "C" fn(libc::pthread_t, *mut *mut libc::c_void) -> c_int;
+
+fn real(name: &'static [u8]) -> usize {
+    unsafe { libc::dlsym(libc::RTLD_NEXT, name.as_ptr() as *const libc::c_char) as usize }
+}
+
+struct AdoptedStart {
+    adopted: crate::sim::Adopted,
+    start: StartRoutine,
+    arg: *mut libc::c_void,
+}
+
+/// (pthread_t, exit flag) of the adopted threads that have not been joined yet.
+struct Table {
+    locked: std::sync::atomic::AtomicBool,
+    rows: std::cell::UnsafeCell<Vec<(libc::pthread_t, std::sync::Arc<std::sync::atomic::AtomicU8>)>>,
+}
+unsafe impl Sync for Table {}
+static ADOPTED: Table = Table {
+    locked: std::sync::atomic::AtomicBool::new(false),
+    rows: std::cell::UnsafeCell::new(Vec::new()),
+};
+impl Table {
+    fn with<R>(&self, f: impl FnOnce(&mut Vec<(libc::pthread_t, std::sync::Arc<std::sync::atomic::AtomicU8>)>) -> R) -> R {
+        use std::sync::atomic::Ordering::SeqCst;
+        while self.locked.compare_exchange_weak(false, true, SeqCst, SeqCst).is_err() {
+            std::hint::spin_loop();
+        }
+        let r = f(unsafe { &mut *self.rows.get() });
+        self.locked.store(false, SeqCst);
+        r
+    }
+}
+
+extern "C" fn adopted_trampoline(p: *mut libc::c_void) -> *mut libc::c_void {
+    let b = unsafe { Box::from_raw(p as *mut AdoptedStart) };
+    b.adopted.enter();
+    // (the thread leaves the simulation from the destructor of a pthread key set by `enter`: after
+    // its thread-local destructors and std's own clean-up)
+    (b.start)(b.arg)
+}
+
+/// Interposed `pthread_create`.
+///
+/// # Safety
+/// Same contract as the C function.
+#[no_mangle]
+pub unsafe extern "C" fn pthread_create(
+    thread: *mut libc::pthread_t,
+    attr: *const libc::pthread_attr_t,
+    start: StartRoutine,
+    arg: *mut libc::c_void,
+) -> c_int {
+    let f = real(b"pthread_create\0");
+    let f: CreateFn = std::mem::transmute::<usize, CreateFn>(f);
+    if !bbguard::is_internal() && (bbguard::is_worker() || crate::sim::is_sim_driver()) {
+        if let Some(adopted) = crate::sim::adopt_thread() {
+            bbguard::enter_internal();
+            let flag = adopted.exit_flag.clone();
+            let b = Box::into_raw(Box::new(AdoptedStart { adopted, start, arg }));
+            let rc = f(thread, attr, adopted_trampoline, b as *mut libc::c_void);
+            if rc != 0 {
+                let b = Box::from_raw(b);
+                b.adopted.cancel();
+            } else {
+                let t = *thread;
+                // (a pthread_t is reused once its thread is gone: a row with the same value is stale)
+                ADOPTED.with(|rows| {
+                    rows.retain(|r| r.0 != t);
+                    rows.push((t, flag));
+                });
+            }
+            bbguard::leave_internal();
+            return rc;
+        }
+    }
+    f(thread, attr, start, arg)
+}
+
+/// Interposed `pthread_join`.
+///
+/// # Safety
+/// Same contract as the C function.
+#[no_mangle]
+pub unsafe extern "C" fn pthread_join(thread: libc::pthread_t, ret: *mut *mut libc::c_void) -> c_int {
+    let f = real(b"pthread_join\0");
+    let f: JoinFn = std::mem::transmute::<usize, JoinFn>(f);
+    let flag = ADOPTED.with(|rows| rows.iter().position(|r| r.0 == thread).map(|i| rows.swap_remove(i).1));
+    if std::env::var_os("SIM_DEBUG").is_some() {
+        eprintln!("pthread_join {:x}: adopted={} internal={} worker={} driver={}", thread, flag.is_some(), bbguard::is_internal(), bbguard::is_worker(), crate::sim::is_sim_driver());
+    }
+    if let Some(flag) = flag {
+        if !bbguard::is_internal() && (bbguard::is_worker() || crate::sim::is_sim_driver()) {
+            crate::sim::wait_for_exit(&flag);
+        }
+    }
+    f(thread, ret)
 }
